@@ -13,9 +13,9 @@ def run_all():
     global _done
     if _done:
         return
-    from . import registry, flow, emitted, trust  # noqa: F401  (each module exposes generate())
+    from . import registry, flow, emitted, trust, skeleton, frame  # noqa: F401  (each module exposes generate())
 
     with Lock(LEAN / ".lock"):
-        for mod in (registry, flow, emitted, trust):
+        for mod in (registry, flow, emitted, trust, skeleton, frame):
             mod.generate()
     _done = True
